@@ -43,9 +43,9 @@ Init0 ==
    closeRet |-> FALSE, rsClosed |-> FALSE, calls |-> <<>>, subs |-> <<>>, sacks |-> <<>>, sacksRead |-> <<>>,
    pongs |-> 0, pings |-> 0,
    pend1 |-> <<>>, pend2 |-> <<>>, awaitResend |-> FALSE, last1 |-> -1, last2 |-> -1, unkPartial |-> FALSE,
-   inb |-> <<>>, held |-> {}, owedAcks |-> <<>>, marks |-> {}, damaged |-> {}, diverged |-> FALSE,
+   inb |-> <<>>, inbId |-> <<>>, held |-> {}, owedAcks |-> <<>>, marks |-> {}, damaged |-> {}, diverged |-> FALSE,
    lastFail |-> FALSE, nstops |-> 0, closedEarly |-> FALSE, closeCalled |-> FALSE, altered |-> {}, sent0 |-> {},
-   attemptOpen |-> FALSE, down |-> "no"]
+   ambig |-> {}, attemptOpen |-> FALSE, down |-> "no", downSure |-> FALSE, lwGot |-> <<>>, stalls |-> <<>>]
 
 (* ---------------------------------------------------------------------- *)
 (* helpers on the outbound bookkeeping                                     *)
@@ -68,8 +68,10 @@ OnStore(m, e) ==
   LET k == e.key
       lvl == LevelOfKey(k)
   IN
-  IF e.err THEN R([m EXCEPT !.faulty = TRUE, !.down = IF e.op = "Load" /\ k = 0 THEN "yes" ELSE @], {})
-  ELSE IF e.op = "Load" /\ k = 0 THEN R([m EXCEPT !.attemptOpen = TRUE], {})
+  IF e.err THEN R([m EXCEPT !.faulty = TRUE, !.down = IF e.op = "Load" /\ k = 0 THEN "yes" ELSE @,
+                            !.attemptOpen = @ \/ (e.op = "Load" /\ k = 0),
+                            !.downSure = IF e.op = "Load" /\ k = 0 THEN FALSE ELSE @], {})
+  ELSE IF e.op = "Load" /\ k = 0 THEN R([m EXCEPT !.attemptOpen = TRUE, !.downSure = FALSE], {})
   ELSE IF e.op = "Save" /\ e.kind = "PUB" /\ lvl > 0 THEN
     LET t == e.tag
         prev == IF lvl = 1 THEN m.last1 ELSE m.last2
@@ -77,6 +79,7 @@ OnStore(m, e) ==
         max == IF lvl = 1 THEN m.amax ELSE m.emax
         fails ==
              If(Has(m.owner, k) /\ m.owner[k] # t /\ ~m.msgs[m.owner[k]].deleted, "C17_Distinct")
+          \cup If(lvl = 2 /\ Has(m.owner, k) /\ m.owner[k] # t /\ ~m.msgs[m.owner[k]].deleted, "C03_IdNotReused")
           \cup If(npend + 1 > max, "C17_Bounded")
           \cup If(e.id # k \/ k % IdMod # e.id % IdMod, "C17_IdRange")
           \cup If(prev # -1 /\ k # NextId(prev), "C05_IdOrderIsAcceptOrder")
@@ -165,13 +168,16 @@ OnWritePacket(acc, pk) ==
                    !.fails = @ \cup fails]
   ELSE IF pk.t \in {"PUBACK", "PUBREC"} THEN
     \* acknowledgement of an inbound message: only after the application took ownership (C07)
-    LET fails == base
-          \cup If(pk.id \in m.held, "C07_NoAckWhileHeld")
-          \cup If(~Has(m.inb, pk.id), "C07_AckedOnlyIfReceived")
-          \cup If(Has(m.inb, pk.id) /\ (m.inb[pk.id].qos = 1) # (pk.t = "PUBACK"), "C07_AckCarriesId")
-          \cup If(Has(m.inb, pk.id) /\ m.inb[pk.id].returned = 0 /\ ~m.inb[pk.id].dupSkipped, "C07_AckedOnlyIfReturned")
+    LET known == Has(m.inbId, pk.id)
+        tg == IF known THEN m.inbId[pk.id] ELSE 0
+        sure == known /\ pk.id \notin m.ambig
+        fails == base
+          \cup If(known /\ tg \in m.held, "C07_NoAckWhileHeld")
+          \cup If(~known, "C07_AckedOnlyIfReceived")
+          \cup If(sure /\ (m.inb[tg].qos = 1) # (pk.t = "PUBACK"), "C07_AckCarriesId")
+          \cup If(sure /\ m.inb[tg].returned = 0, "C07_AckedOnlyIfReturned")
     IN [acc EXCEPT !.m = [m EXCEPT !.conns[c] = cn1,
-                                  !.inb = IF Has(@, pk.id) THEN [@ EXCEPT ![pk.id].acks = @ + 1, ![pk.id].owed = FALSE] ELSE @],
+                                  !.inb = IF known THEN [@ EXCEPT ![tg].acks = @ + 1, ![tg].owed = FALSE] ELSE @],
                    !.fails = @ \cup fails]
   ELSE IF pk.t = "PINGREQ" THEN
     [acc EXCEPT !.m = [m EXCEPT !.conns[c] = cn1, !.pings = @ + 1], !.fails = @ \cup base]
@@ -230,13 +236,19 @@ OnReadPacket(acc, pk) ==
   ELSE IF pk.t = "PINGRESP" THEN [acc EXCEPT !.m = [m EXCEPT !.conns[c] = cn1, !.pongs = @ + 1]]
   ELSE IF pk.t = "PUBREL" THEN
     [acc EXCEPT !.m = [m EXCEPT !.conns[c] = cn1,
-                              !.inb = IF Has(@, pk.id) THEN [@ EXCEPT ![pk.id].cycleEnded = TRUE] ELSE @]]
+                              !.inb = IF Has(m.inbId, pk.id) THEN [@ EXCEPT ![m.inbId[pk.id]].cycleEnded = TRUE] ELSE @]]
   ELSE [acc EXCEPT !.m = [m EXCEPT !.conns[c] = cn1]]
 
+(* Deadline expiries are tolerated only when bytes arrived since the previous one: after two       *)
+(* expiries in a row without a byte in between the client must give up on that connection (C10). *)
 OnRead(m, e) ==
   IF ~Has(m.conns, e.c) THEN R(m, {"Harness_UnknownConn"}) ELSE
   LET acc == FoldLeft(OnReadPacket, [m |-> m, fails |-> {}, c |-> e.c], e.pk)
-  IN R(acc.m, acc.fails \cup If(e.err \in {"timeout-unarmed", "empty"}, "Harness_BadOutcome"))
+      prev == IF Has(m.stalls, e.c) THEN m.stalls[e.c] ELSE 0
+      now == IF e.err = "timeout" /\ e.n = 0 THEN prev + 1 ELSE 0
+  IN R([acc.m EXCEPT !.stalls = Put(@, e.c, now)],
+       acc.fails \cup If(e.err \in {"timeout-unarmed", "empty"}, "Harness_BadOutcome")
+                 \cup If(prev >= 2, "C10_StallNoticed"))
 
 (* ---------------------------------------------------------------------- *)
 (* broker side                                                             *)
@@ -247,17 +259,19 @@ OnBrokerSend(m, e) ==
   ELSE IF pk.t = "PUBLISH" /\ pk.qos = 0 THEN R([m EXCEPT !.sent0 = @ \cup {pk.tag}], {})
   ELSE IF pk.t = "PUBLISH" /\ pk.qos > 0 THEN
     \* a delivery (or redelivery) to the client: one cycle per identifier until PUBACK / PUBCOMP
-    LET fresh == ~Has(m.inb, pk.id) \/ m.inb[pk.id].done
-        rec == IF fresh THEN [qos |-> pk.qos, tag |-> pk.tag, returned |-> 0, owned |-> FALSE, cycleEnded |-> FALSE,
-                              acks |-> 0, owed |-> FALSE, done |-> FALSE, dupSkipped |-> FALSE, sends |-> 1]
-               ELSE [m.inb[pk.id] EXCEPT !.sends = @ + 1]
-    IN R([m EXCEPT !.inb = Put(@, pk.id, rec)], {})
+    LET fresh == ~Has(m.inb, pk.tag)
+        rec == IF fresh THEN [qos |-> pk.qos, tag |-> pk.tag, id |-> pk.id, returned |-> 0, owned |-> FALSE, cycleEnded |-> FALSE,
+                              acks |-> 0, owed |-> FALSE, done |-> FALSE, dupSkipped |-> FALSE, sends |-> 1, ownedGen |-> 0]
+               ELSE [m.inb[pk.tag] EXCEPT !.sends = @ + 1]
+        \* an identifier reused although a retransmission of its previous cycle may still be in flight:
+        \* acknowledgements for it cannot be attributed to a cycle any more
+        stale == fresh /\ Has(m.inbId, pk.id) /\ m.inb[m.inbId[pk.id]].sends >= 2
+    IN R([m EXCEPT !.inb = Put(@, pk.tag, rec), !.inbId = Put(@, pk.id, pk.tag), !.ambig = IF stale THEN @ \cup {pk.id} ELSE @], {})
   ELSE R(m, {})
 
 OnBrokerRecv(m, e) ==
   LET pk == e.pk IN
-  IF pk.t = "PUBACK" /\ Has(m.inb, pk.id) THEN R([m EXCEPT !.inb[pk.id].done = TRUE], {})
-  ELSE IF pk.t = "PUBCOMP" /\ Has(m.inb, pk.id) THEN R([m EXCEPT !.inb[pk.id].done = TRUE], {})
+  IF pk.t \in {"PUBACK", "PUBCOMP"} /\ Has(m.inbId, pk.id) THEN R([m EXCEPT !.inb[m.inbId[pk.id]].done = TRUE], {})
   ELSE R(m, {})
 
 OnDeliver(m, e) ==
@@ -297,13 +311,20 @@ OnSig(m, e) ==
       exact == IF e.online /\ ~m.online /\ m.awaitResend /\ c # 0 /\ Has(m.conns, c) /\ m.damaged = {}
                THEN If(~IsPrefixOf(m.pend1, ResendList(m, c, 1)), "C02_PendingExact")
                     \cup If(~IsPrefixOf(m.pend2, ResendList(m, c, 2)), "C02_PendingExact")
+                    \cup If(~IsPrefixOf(m.pend1, ResendList(m, c, 1)) \/ ~IsPrefixOf(m.pend2, ResendList(m, c, 2)), "C05_ResendInAcceptOrder")
                ELSE {}
+      relowed == IF e.online /\ ~m.online /\ c # 0 /\ Has(m.conns, c)
+                 THEN If(\E t \in m.conns[c].owed : m.msgs[t].level = 2 /\ m.msgs[t].relSaved /\ ~m.msgs[t].deleted /\ ~m.msgs[t].acked
+                                                     /\ ~(\E i \in DOMAIN m.conns[c].pk : m.conns[c].pk[i].t = "PUBREL" /\ m.conns[c].pk[i].id = m.msgs[t].id),
+                         "C03_RelUntilComp")
+                 ELSE {}
   IN R([m EXCEPT !.online = e.online, !.offline = e.offline,
                  !.awaitResend = IF e.online THEN FALSE ELSE @,
                  !.attemptOpen = IF e.online THEN FALSE ELSE @,
                  !.down = IF e.online THEN "no" ELSE @,
+                 !.downSure = IF e.online THEN FALSE ELSE @,
                  !.lastFail = IF e.online THEN FALSE ELSE @],
-       both \cup resent \cup exact)
+       both \cup resent \cup exact \cup relowed)
 
 OnConnClose(m, e) ==
   \* the client closing the connection of an open attempt: the attempt failed (ErrDown may follow at once)
@@ -350,7 +371,7 @@ OnCall(m, e) ==
   ELSE IF e.m = "ReadSlices" THEN
     \* the application takes ownership of what the previous call returned
     R([m1 EXCEPT !.held = {},
-                 !.inb = [i \in DOMAIN @ |-> IF i \in m.held THEN [@[i] EXCEPT !.owned = TRUE, !.owed = TRUE] ELSE @[i]]], {})
+                 !.inb = [i \in DOMAIN @ |-> IF i \in m.held THEN [@[i] EXCEPT !.owned = TRUE, !.owed = TRUE, !.ownedGen = m.gen] ELSE @[i]]], {})
   ELSE R(m1, {})
 
 Failing(filt, codes) == SelectSeq([i \in DOMAIN filt |-> IF i <= Len(codes) /\ codes[i] = 128 THEN filt[i] ELSE ""], LAMBDA s : s # "")
@@ -372,9 +393,11 @@ OnRet(m, e) ==
         \cup If("deny" \in cls /\ "end" \in cls, "C14_DenyEndDisjoint")
         \cup If(cl.afterClose /\ meth \notin {"ReadAll", "Close"} /\ "closed" \notin cls /\ "deny" \notin cls, "C12_ErrClosedAfter")
         \cup If("abandoned" \in cls /\ cl.wrote = 0, "C14_AbandonedMeansSubmitted")
-        \cup If("down" \in cls /\ m.down = "no" /\ meth \in {"Publish", "PublishRetained", "Subscribe", "SubscribeLimitAtMostOnce",
-                                                             "SubscribeLimitAtLeastOnce", "Unsubscribe", "Ping"}, "C18_WaitThenDown")
-      m0 == [m EXCEPT !.calls = [p \in DOMAIN @ \ {e.p} |-> @[p]]]
+        \* judged on what held when the request took the write semaphore (hook lw.got), gated runs only
+        \cup If("down" \in cls /\ Has(m.lwGot, e.p) /\ m.lwGot[e.p].down = "no"
+                 /\ meth \in {"Publish", "PublishRetained", "Subscribe", "SubscribeLimitAtMostOnce",
+                              "SubscribeLimitAtLeastOnce", "Unsubscribe", "Ping"}, "C18_WaitThenDown")
+      m0 == [m EXCEPT !.calls = [p \in DOMAIN @ \ {e.p} |-> @[p]], !.lwGot = [p \in DOMAIN @ \ {e.p} |-> @[p]]]
   IN
   IF meth \in Persisted THEN
     LET t == e.tag
@@ -401,15 +424,17 @@ OnRet(m, e) ==
     LET isClosed == "closed" \in cls
         got == e.got /\ e.tag # 0
         \* which inbound delivery does this return belong to: the oldest not yet returned in this cycle with that tag
-        cands == {i \in DOMAIN m.inb : m.inb[i].tag = e.tag /\ (m.inb[i].qos = 1 \/ ~m.inb[i].done)}
-        id == IF cands = {} THEN 0 ELSE CHOOSE i \in cands : TRUE
+        id == IF Has(m.inb, e.tag) THEN e.tag ELSE 0   \* inbound deliveries are kept per message tag
         \* suppression is owed from the moment the marker Save succeeded (DESIGN appendix C)
-        again == got /\ id # 0 /\ m.inb[id].qos = 2 /\ m.inb[id].returned >= 1 /\ id \in m.marks
+        \* and, within one process, from the moment the application took ownership (no stop in between)
+        again == got /\ id # 0 /\ m.inb[id].qos = 2 /\ m.inb[id].returned >= 1 /\ ~m.inb[id].cycleEnded
+                 /\ (m.inb[id].id \in m.marks \/ (m.inb[id].owned /\ m.inb[id].ownedGen = m.gen))
         m1 == [m0 EXCEPT !.rsClosed = @ \/ isClosed,
                          \* an error while a connect attempt was open: the attempt failed (ErrDown from now on);
                          \* otherwise an established connection was lost (requests wait for the next attempt)
                          !.down = IF cls # {} /\ ~isClosed /\ "big" \notin cls THEN (IF m.attemptOpen THEN "yes" ELSE "no") ELSE @,
                          !.attemptOpen = IF cls # {} /\ "big" \notin cls THEN FALSE ELSE @,
+                         !.downSure = IF cls # {} /\ ~isClosed /\ "big" \notin cls THEN m.attemptOpen ELSE @,
                          !.held = IF got /\ id # 0 THEN {id} ELSE {},
                          !.inb = IF got /\ id # 0 THEN [@ EXCEPT ![id].returned = @ + 1] ELSE @]
     IN R(m1, If(again, "C04_OncePerCycle")
@@ -445,14 +470,18 @@ OnDamage(m, e) ==
                           ELSE IF e.how = "remove" THEN @ \ {e.key} ELSE @], {})
 
 OnStuck(m, e) ==
-  LET name == IF m.damaged # {} THEN "C16_CanConnectAndReceive"
+  LET meth == IF Has(m.calls, e.p) THEN m.calls[e.p].m ELSE e.m
+      name0 == IF m.damaged # {} THEN "C16_CanConnectAndReceive"
               ELSE IF IsReader(e.p) THEN "C10_ReaderProgress"
-              ELSE IF e.m \in {"Close", "Disconnect"} THEN "C12_Returns"
-              ELSE IF e.m \in {"Subscribe", "SubscribeLimitAtMostOnce", "SubscribeLimitAtLeastOnce", "Unsubscribe", "Ping"} THEN "C11_Returns"
-              ELSE IF e.m \in Persisted THEN "C17_ErrMaxNoBlock"
-              ELSE IF e.m \in {"Publish", "PublishRetained"} THEN "C10_PendingReleased"
+              ELSE IF meth \in {"Close", "Disconnect"} THEN "C12_Returns"
+              ELSE IF meth \in {"Subscribe", "SubscribeLimitAtMostOnce", "SubscribeLimitAtLeastOnce", "Unsubscribe", "Ping"} THEN "C11_Returns"
+              ELSE IF meth \in Persisted THEN "C17_ErrMaxNoBlock"
+              ELSE IF meth \in {"Publish", "PublishRetained"} THEN "C10_PendingReleased"
               ELSE "C12_Returns"
-  IN R(m, {name})
+      \* a request that is stuck while the client was closed falls under C12 as well
+      name == name0
+  IN R(m, {name} \cup If(~IsReader(e.p) /\ meth \notin {"Close", "Disconnect"} /\ ~m.closeCalled, "C10_PendingReleased")
+                 \cup If(m.closeCalled /\ e.phase \in {"close", "loop"}, "C12_Returns"))
 
 OnFinal(m, e) ==
   LET drained == ~e.diverged \/ TRUE
@@ -470,9 +499,18 @@ OnFinal(m, e) ==
 
 (* ---------------------------------------------------------------------- *)
 
+(* Hook sites as observation points.  A request that took the write semaphore (lw.got) after a *)
+(* connect attempt had failed for good must find connDown and return ErrDown; reaching lw.wait   *)
+(* means it found "pending" (C18).                                                               *)
+OnGate(m, e) ==
+  IF e.site = "lw.got" THEN R([m EXCEPT !.lwGot = Put(@, e.p, [sure |-> m.downSure, down |-> m.down])], {})
+  ELSE IF e.site = "lw.wait" THEN R(m, If(Has(m.lwGot, e.p) /\ m.lwGot[e.p].sure /\ m.downSure, "C18_WaitThenDown"))
+  ELSE R(m, {})
+
 ObsStep(m, e) ==
   CASE e.e = "begin" -> R([Init0 EXCEPT !.gen = 1, !.amax = IF e.amax < 0 \/ e.amax > IdMod THEN IdMod ELSE e.amax,
                                        !.emax = IF e.emax < 0 \/ e.emax > IdMod THEN IdMod ELSE e.emax, !.clean = e.clean], {})
+    [] e.e = "gate" -> OnGate(m, e)
     [] e.e = "st" -> OnStore(m, e)
     [] e.e = "cw" -> OnWrite(m, e)
     [] e.e = "cr" -> OnRead(m, e)
